@@ -67,6 +67,11 @@ def run_case(run, drv, case_seed):
         content = rng.choice([m["root"], os.path.dirname(m["root"])])
         cmds.append(("ro", [rng.choice(["recheck", "check"]), meta, content], None))
         cmds.append(("ro", ["info", meta], None))
+        if rng.random() < 0.4:
+            # the content is not there at all (path named like the torrent, or a parent without it)
+            ghost = os.path.join(work, "downloads-" + str(case_seed % 97))
+            cmds.append(("ro", [rng.choice(["recheck", "check"]), meta,
+                                rng.choice([os.path.join(ghost, name), ghost])], None))
         ver = rng.choice(["0", "1", "2", "3"])
         cmds.append(("ro", [rng.choice(["magnet", "m"]), meta] +
                      (["--meta-version", ver] if rng.random() < 0.7 else []), None))
@@ -189,7 +194,8 @@ def run_case(run, drv, case_seed):
                                         "d/"])
                     with open(src, "wb") as fd:
                         fd.write(refspec.encode(refspec.ref_metafile(rname, [((rname,), b"abc")], 16384, 1,
-                                                                     single=True)))
+                                                                     single=True)) +
+                                 rng.choice([b"", b"", b"\n", b"trailing bytes"]))     # bytes are bytes
                 newp = os.path.join(outdir, os.path.basename(rname.rstrip("/")) + ".torrent")
                 if os.path.lexists(newp) and occupied is not True:
                     os.remove(newp)
@@ -234,6 +240,11 @@ def run_case(run, drv, case_seed):
                         run.fail("impl-vs-spec", c, {"why": "rename did not move exactly the file, "
                                                             "bytes unchanged", "changed": changed(before, after),
                                                      "raised": raised})
+                # the name handling of rename (Impl.renameTarget): where the file ends up, for any name
+                moved_to = [k for k in after if k not in before]
+                drv.ask(f"renametarget {hx(src.encode())} {hx(rname.encode('utf8'))}",
+                        ("renametarget", c, (None if occupied else
+                                             (os.path.join(box, moved_to[0]) if len(moved_to) == 1 else None), raised)))
                 drv.ask(f"ops rename {hx(src.encode())} {hx(newp.encode('utf8'))} 1 {1 if occupied else 0}",
                         ("rename", c, [(t[0],) + tuple(os.path.join(box, p) for p in t[1:])
                                        for t in mutating_tokens(tr.mutating(), box)]))
@@ -294,6 +305,17 @@ def run(tier, seed, replay=None):
                 continue
             raise MachineryError(f"driver: {req[:60]} -> {out[:100]}")
         run.model_checked += 1
+        if kind == "renametarget":
+            moved, raised = got
+            if moved is not None:
+                want = "ok " + hx(moved.encode("utf8"))
+                if out.strip() != want:
+                    run.fail("impl-vs-model", case, {"correspondence": "Impl.renameTarget (where the metafile ends up)",
+                                                     "model": out[:120], "impl": moved})
+            elif out.startswith("err:badname") and not raised:
+                run.fail("impl-vs-model", case, {"correspondence": "Impl.renameTarget (refused names)",
+                                                 "model": out[:120], "impl": "no error"})
+            continue
         if out.startswith("err:"):
             model = []
         else:
